@@ -1,1 +1,146 @@
-pub fn run(_a: &vcommon::Args) {}
+//! C12 — Repository data is served only to peers allowed to see it.
+//!
+//! End to end with real in-process nodes (`radicle_node::test::environment`): one serving node
+//! holding public / private / allow-listed / blocked / unseeded repositories, requesters with
+//! different roles fetch every repository over real connections and real workers. Oracle (own
+//! predicate over the configuration the harness installed): served => seeded and visible.
+use std::collections::BTreeMap;
+
+use radicle::identity::doc::Visibility;
+use radicle::identity::{Did, RepoId};
+use radicle::node::policy::{Policy, Scope};
+use radicle::node::{Alias, Handle as _};
+use radicle::storage::ReadStorage;
+use radicle_node::test::environment::Node;
+use vcommon::{guarded, json, Args, Reporter, Rng, Value};
+
+struct RepoSpec {
+    rid: RepoId,
+    name: String,
+    /// None = public, Some(allow) = private with these requester indices allowed
+    private: Option<Vec<usize>>,
+    /// 0 = explicit allow, 1 = explicit block, 2 = no policy (default applies)
+    policy: u8,
+}
+
+fn one(rep: &mut Reporter, seed: u64) {
+    let mut rng = Rng::new(seed);
+    let tmp = vcommon::scratch_dir();
+    let default_allow = rng.chance(1, 4);
+    let mk_cfg = |alias: &str, default_allow: bool| {
+        let mut c = radicle::node::Config::test(Alias::new(alias));
+        c.relay = radicle::node::config::Relay::Always;
+        if default_allow {
+            c.seeding_policy = radicle::node::config::DefaultSeedingPolicy::permissive();
+        }
+        c
+    };
+    let r = guarded(|| -> Result<Vec<Value>, String> {
+        let mut server = Node::init(tmp.path(), mk_cfg("server", default_allow));
+        let nreq = 2 + rng.usize(2);
+        let requesters: Vec<_> = (0..nreq).map(|i| Node::init(tmp.path(), mk_cfg(&format!("req{i}"), false))).collect();
+        let mut repos: Vec<RepoSpec> = vec![];
+        let nrepos = 4 + rng.usize(3);
+        for i in 0..nrepos {
+            let private = if rng.chance(3, 5) { Some((0..nreq).filter(|_| rng.chance(1, 3)).collect::<Vec<_>>()) } else { None };
+            let vis = match &private {
+                None => Visibility::Public,
+                Some(allow) => Visibility::private(allow.iter().map(|a| Did::from(requesters[*a].id))),
+            };
+            let wd = tempfile::tempdir_in(tmp.path()).map_err(|e| e.to_string())?;
+            let (working, _) = radicle::test::fixtures::repository(wd.path());
+            let name = format!("r{i}x{}", seed % 100_000);
+            radicle::storage::git::transport::local::register(server.storage.clone());
+            let (rid, _, _) = radicle::rad::init(&working, name.clone().try_into().unwrap(), "verif", radicle::git::refname!("master"), vis, &server.signer, &server.storage).map_err(|e| e.to_string())?;
+            let policy = *rng.pick(&[0u8, 0, 0, 1, 2]);
+            match policy {
+                0 => { server.policies.seed(&rid, Scope::All).map_err(|e| e.to_string())?; }
+                1 => { server.policies.set_seed_policy(&rid, Policy::Block).map_err(|e| e.to_string())?; }
+                _ => {}
+            }
+            repos.push(RepoSpec { rid, name, private, policy });
+        }
+        let mut server = server.spawn();
+        let mut handles: Vec<_> = requesters.into_iter().map(|n| n.spawn()).collect();
+        for h in handles.iter_mut() {
+            h.connect(&server);
+        }
+        let mut outcomes = vec![];
+        // every requester fetches every repository; the server's policy is changed now and then
+        let mut order: Vec<(usize, usize)> = (0..handles.len()).flat_map(|q| (0..repos.len()).map(move |k| (q, k))).collect();
+        rng.shuffle(&mut order);
+        for (q, k) in order {
+            if rng.chance(1, 8) {
+                // runtime policy change on the server
+                let j = rng.usize(repos.len());
+                if repos[j].policy == 0 {
+                    let _ = server.handle.unseed(repos[j].rid);
+                    repos[j].policy = 2;
+                } else {
+                    let _ = server.handle.seed(repos[j].rid, Scope::All);
+                    repos[j].policy = 0;
+                }
+            }
+            let rid = repos[k].rid;
+            let had_before = handles[q].storage.contains(&rid).unwrap_or(false);
+            let _ = handles[q].handle.seed(rid, Scope::All);
+            let result = handles[q].handle.fetch(rid, server.id, std::time::Duration::from_secs(6));
+            let success = matches!(&result, Ok(r) if r.is_success());
+            let has_after = handles[q].storage.contains(&rid).unwrap_or(false);
+            let seeded = match repos[k].policy { 0 => true, 1 => false, _ => default_allow };
+            let visible = match &repos[k].private { None => true, Some(allow) => allow.contains(&q) };
+            outcomes.push(json!({"requester": q, "repo": repos[k].name, "private_allow": repos[k].private, "server_policy": (["allow", "block", "none(default)"][repos[k].policy as usize]),
+                "server_default_allow": default_allow, "seeded": seeded, "visible": visible, "fetch_success": success, "had_before": had_before, "has_after": has_after,
+                "result": format!("{result:?}").chars().take(160).collect::<String>()}));
+        }
+        drop(handles);
+        drop(server);
+        Ok(outcomes)
+    });
+    match r {
+        Err(p) => rep.inconclusive("environment panicked", json!({"panic": p})),
+        Ok(Err(e)) => rep.inconclusive("environment error", json!({"e": e})),
+        Ok(Ok(outcomes)) => {
+            let mut by_kind: BTreeMap<&str, u64> = BTreeMap::new();
+            for o in &outcomes {
+                rep.eval();
+                let allowed = o["seeded"] == true && o["visible"] == true;
+                let served = o["fetch_success"] == true || (o["has_after"] == true && o["had_before"] == false);
+                if served && !allowed {
+                    let why = if o["visible"] == false && o["seeded"] == false { "not-seeded-and-not-visible" } else if o["visible"] == false { "private-repository-requester-not-allowed" } else { "repository-not-seeded" };
+                    rep.violation(&format!("C12/served-although/{why}"), json!({"request": o, "all_requests": outcomes}));
+                    return;
+                }
+                let key = match (allowed, served) { (true, true) => "authorized-served", (true, false) => "authorized-not-served(not-a-violation)", (false, false) => "unauthorized-refused", _ => "" };
+                *by_kind.entry(key).or_insert(0) += 1;
+                if o["visible"] == false && !served {
+                    rep.count("refused.private-not-allowed");
+                }
+                if o["seeded"] == false && !served {
+                    rep.count("refused.not-seeded");
+                }
+            }
+            for (k, n) in by_kind {
+                rep.add(k, n);
+            }
+            rep.nontrivial(seed);
+            if rep.wants_sample() {
+                rep.sample(json!({"requests": outcomes.iter().take(8).collect::<Vec<_>>()}));
+            }
+        }
+    }
+}
+
+pub fn run(args: &Args) {
+    let mut rep = Reporter::new("C12");
+    if let Some(path) = &args.replay {
+        let w = vcommon::load_replay(path);
+        one(&mut rep, w["case_seed"].as_u64().unwrap_or(args.seed));
+        rep.finish();
+        return;
+    }
+    for k in 0..args.budget(64, 3_200) {
+        one(&mut rep, args.case_seed(k));
+    }
+    rep.finish();
+}
